@@ -103,6 +103,24 @@ def rawSendV2Msg (c : SendCfg) (loop : Nat → Nat → List Poll → Bool) (seqn
       else if loop wait seqno sc.polls then { outcome := .ok (), sent := some m }
       else { outcome := .err "waiting confirmation timeout", sent := some m }
 
+/-- the expiry `SendV2` (and `CreateMessageBody` without an explicit one) gives a message: the wall clock (seconds) plus
+the wallet's message lifetime — `DefaultMessageLifetime` = 180 s, or the value of `WithMessageLifetime` —, as the
+`uint32(validUntil.Unix())` the body builders write -/
+def defaultMessageLifetime : Nat := 180
+def sendExpiry (nowSec : Nat) (lifetime : Option Nat) : Nat := (nowSec + lifetime.getD defaultMessageLifetime) % 4294967296
+
+/-- `Send` = `SendV2` with the expiry derived from the clock -/
+def sendNow (c : SendCfg) (loop : Nat → Nat → List Poll → Bool) (nowSec : Nat) (lifetime : Option Nat) (rnd : Nat)
+    (msgs : List RawMsg) (sc : Script) (wait : Nat) : SendResultMsg :=
+  match sc.acct with
+  | .err e => { outcome := .err e, sent := none }
+  | .panic p => { outcome := .panic p, sent := none }
+  | .ok st =>
+    match nextMessageParams c.v st with
+    | .err e => { outcome := .err e, sent := none }
+    | .panic p => { outcome := .panic p, sent := none }
+    | .ok np => rawSendV2Msg c loop np.seqno (sendExpiry nowSec lifetime) rnd msgs np.init sc wait
+
 /-- `SendV2`: GetAccountState, NextMessageParams, then RawSendV2 -/
 def sendV2Msg (c : SendCfg) (loop : Nat → Nat → List Poll → Bool) (vu rnd : Nat) (msgs : List RawMsg) (sc : Script) (wait : Nat) : SendResultMsg :=
   match sc.acct with
